@@ -187,6 +187,19 @@ def two_macro_variants(base, rnd):
                 pat = copy.deepcopy(base)
                 pat[i] = "@outer"
                 out.append(("nested", [{"name": "@outer", "pattern": [body]}, {"name": "@inner", "pattern": leaf}], pat))
+                # the same with names of different lengths (the listing order, not the name, decides what is applied first)
+                for kind, on, inn in (("nested_short_outer", "@o", "@inner_long"), ("nested_long_outer", "@outer_long", "@i")):
+                    b2 = copy.deepcopy(x)
+                    _set(b2, lp, inn)
+                    p2 = copy.deepcopy(base)
+                    p2[i] = on
+                    out.append((kind, [{"name": on, "pattern": [b2]}, {"name": inn, "pattern": leaf}], p2))
+                if len(leaf) >= 3:
+                    b3 = copy.deepcopy(x)
+                    _set(b3, lp, leaf[0] + "@in_long" + leaf[-1])
+                    p3 = copy.deepcopy(base)
+                    p3[i] = "@o"
+                    out.append(("nested_embedded_short_outer", [{"name": "@o", "pattern": [b3]}, {"name": "@in_long", "pattern": leaf[1:-1]}], p3))
                 break
     # one parameterised macro used twice with DIFFERENT arguments (uses must not influence each other)
     dict_tops = [i for i in tops if isinstance(base[i], dict)]
